@@ -56,7 +56,14 @@ def parseWOps : List String → Option (List WOp)
   | t :: rest => do
     let op ← match t.toList with
       | 'h' :: c => (String.ofList c).toInt?.map WOp.writeHeader
-      | 'w' :: n => (String.ofList n).toNat?.map WOp.write
+      | 'w' :: n => (String.ofList n).toNat?.map fun k => WOp.write k k
+      | 's' :: r =>   -- s<offered>:<accepted>
+        match (String.ofList r).splitOn ":" with
+        | [a, b] => do
+          let n ← a.toNat?
+          let acc ← b.toNat?
+          some (WOp.write n (min n acc))
+        | _ => none
       | _ => none
     let r ← parseWOps rest
     pure (op :: r)
